@@ -54,6 +54,7 @@ pub fn replay_kind(kind: &str, j: &serde_json::Value) -> Option<Vec<String>> {
         "dig" => Some(c16::replay_dig(j)),
         "maporder" => Some(c15::replay_maporder(j)),
         "static" => Some(c15::replay_static(j)),
+        "interleave" => Some(c15::replay_interleave(j)),
         "none" => Some(j["observed"].as_array().map(|a| a.iter().map(|x| x.as_str().unwrap_or("").to_string()).collect()).unwrap_or_default()),
         "layout" => Some(c20::replay_layout(j)),
         _ => None,
